@@ -7,6 +7,8 @@ package basestore
 
 //@ func (*BaseStore).recalculateReplicationMax
 //@   props C19
+//@   ghost L0 := logLen(b.oplog)
+//@   ghost M0 := statusMax(b.replicationStatus)
 //@   ensures statusMax(b.replicationStatus) >= old(statusMax(b.replicationStatus))
 //@   ensures statusMax(b.replicationStatus) >= old(max)
 //@   ensures statusMax(b.replicationStatus) >= logLen(b.oplog)
